@@ -217,6 +217,10 @@ def special_scenarios(years=common.YEARS):
         # child tax credit in its phase-out range (head of household, two children, AGI just above 200,000)
         ctc = {'number_1099-int': '1', '1099-int:0.box_1': '1300.00', 'principal_abode_us': 'yes', 'number_under_18': '2', 'number_under_6': '0'}
         out.append((y, ['1040'], 9007, dict(base, status='HeadOfHousehold', wages=199000 / 1.0, n_dep=2, n_u17=2, overrides=dict(ctc, **{'w-2:0.box_1': '199000.00'}))))
+        # North Carolina with additions to and deductions from federal AGI (Schedule S totals carried to D-400 lines 7 and 9)
+        ncs = dict(nc, additions_to_agi='yes', deductions_from_agi='yes', interest_income_not_nc='750.00', interest_us_obligations='120.00',
+                   bonus_depreciation='no', section_179_expense='no', nc_net_operating_loss='no', state_local_refund='0.00')
+        out.append((y, ['1040', 'nc_d-400'], 9008, dict(base, status='Single', wages=60000, overrides=ncs)))
     return out
 
 
